@@ -313,12 +313,14 @@ struct Exec<S: Scenario> {
     points: Vec<(Vec<Choice>, usize, Option<usize>, Vec<(usize, String)>)>,
     deviations: usize,
     last: Option<usize>,
+    /// running hash of everything observable (parked labels) up to and including each point
+    point_hash: Vec<u64>,
 }
 
 const HORIZON: usize = 400;
 
 /// Run one execution following `prefix` (indices into the choice lists), then default choices.
-fn execute<S: Scenario>(sc: &S, prefix: &[usize]) -> Result<Exec<S>, Failure> {
+fn execute<S: Scenario>(sc: &S, prefix: &[usize], expect: Option<u64>) -> Result<Exec<S>, Failure> {
     let n = sc.n_tasks();
     let (mut run, gates) = Run::new(n);
     let (ctx, futs) = sc.build(gates);
@@ -332,8 +334,10 @@ fn execute<S: Scenario>(sc: &S, prefix: &[usize]) -> Result<Exec<S>, Failure> {
         points: vec![],
         deviations: 0,
         last: None,
+        point_hash: vec![],
     };
     let mut k = 0usize;
+    let mut running = 0u64;
     loop {
         let parked = ex.run.parked();
         if parked.is_empty() {
@@ -344,6 +348,13 @@ fn execute<S: Scenario>(sc: &S, prefix: &[usize]) -> Result<Exec<S>, Failure> {
                 });
             }
             break;
+        }
+        running = crate::util::h64(&(running, &parked));
+        ex.point_hash.push(running);
+        if let Some(e) = expect {
+            if !prefix.is_empty() && k == prefix.len() - 1 && running != e {
+                panic!("replay divergence: the execution observed while replaying a prefix differs from the one that produced it at point {k} (uncontrolled nondeterminism; machinery error)");
+            }
         }
         let choices = sc.choices(&ex.ctx, &parked, ex.last);
         if choices.is_empty() {
@@ -405,13 +416,13 @@ pub struct ExploreCfg {
 /// Result of one execution in the search.
 struct OneRun {
     stats: ExploreStats,
-    alts: Vec<Vec<usize>>,
+    alts: Vec<(Vec<usize>, u64)>,
     failure: Option<Failure>,
 }
 
-fn run_one<S: Scenario>(sc: &S, cfg: &ExploreCfg, prefix: &[usize]) -> OneRun {
+fn run_one<S: Scenario>(sc: &S, cfg: &ExploreCfg, prefix: &[usize], expect: Option<u64>) -> OneRun {
     let mut stats = ExploreStats::default();
-    let ex = match execute(sc, prefix) {
+    let ex = match execute(sc, prefix, expect) {
         Ok(ex) => ex,
         Err(f) => {
             stats.schedules += 1;
@@ -428,7 +439,7 @@ fn run_one<S: Scenario>(sc: &S, cfg: &ExploreCfg, prefix: &[usize]) -> OneRun {
     stats.max_len = ex.trace.len();
     let mut chosen: Vec<usize> = prefix.to_vec();
     chosen.resize(ex.points.len(), 0);
-    let mut alts: Vec<Vec<usize>> = vec![];
+    let mut alts: Vec<(Vec<usize>, u64)> = vec![];
     for i in prefix.len()..ex.points.len() {
         let (choices, devs_before, last, parked) = &ex.points[i];
         for alt in 1..choices.len() {
@@ -438,7 +449,7 @@ fn run_one<S: Scenario>(sc: &S, cfg: &ExploreCfg, prefix: &[usize]) -> OneRun {
             }
             let mut p = chosen[..i].to_vec();
             p.push(alt);
-            alts.push(p);
+            alts.push((p, ex.point_hash[i]));
         }
     }
     let trace = ex.trace.clone();
@@ -466,18 +477,18 @@ fn run_one<S: Scenario>(sc: &S, cfg: &ExploreCfg, prefix: &[usize]) -> OneRun {
 pub fn explore<S: Scenario>(sc: &S, cfg: &ExploreCfg) -> (ExploreStats, Vec<Failure>) {
     let mut stats = ExploreStats::default();
     let mut failures: Vec<Failure> = vec![];
-    let mut stack: Vec<Vec<usize>> = vec![vec![]];
-    while let Some(prefix) = stack.pop() {
+    let mut stack: Vec<(Vec<usize>, Option<u64>)> = vec![(vec![], None)];
+    while let Some((prefix, expect)) = stack.pop() {
         if stats.schedules >= cfg.max_schedules
             || (stats.schedules % 64 == 0 && cfg.deadline.is_some_and(|d| std::time::Instant::now() > d))
         {
             stats.capped = true;
             break;
         }
-        let r = run_one(sc, cfg, &prefix);
+        let r = run_one(sc, cfg, &prefix, expect);
         stats.merge(r.stats);
-        for p in r.alts.into_iter().rev() {
-            stack.push(p);
+        for (p, h) in r.alts.into_iter().rev() {
+            stack.push((p, Some(h)));
         }
         if let Some(f) = r.failure {
             if failures.len() < 5 {
@@ -494,22 +505,22 @@ pub fn explore_par<S: Scenario>(sc: &S, cfg: &ExploreCfg) -> (ExploreStats, Vec<
     use rayon::prelude::*;
     let mut stats = ExploreStats::default();
     let mut failures: Vec<Failure> = vec![];
-    let mut frontier: Vec<Vec<usize>> = vec![vec![]];
+    let mut frontier: Vec<(Vec<usize>, Option<u64>)> = vec![(vec![], None)];
     while !frontier.is_empty() {
         if stats.schedules >= cfg.max_schedules || cfg.deadline.is_some_and(|d| std::time::Instant::now() > d) {
             stats.capped = true;
             break;
         }
         // bound the batch so that caps are honoured with reasonable granularity
-        let batch: Vec<Vec<usize>> = if frontier.len() > 20_000 {
+        let batch: Vec<(Vec<usize>, Option<u64>)> = if frontier.len() > 20_000 {
             frontier.split_off(frontier.len() - 20_000)
         } else {
             std::mem::take(&mut frontier)
         };
-        let results: Vec<OneRun> = batch.par_iter().map(|p| run_one(sc, cfg, p)).collect();
+        let results: Vec<OneRun> = batch.par_iter().map(|(p, e)| run_one(sc, cfg, p, *e)).collect();
         for r in results {
             stats.merge(r.stats);
-            frontier.extend(r.alts);
+            frontier.extend(r.alts.into_iter().map(|(p, h)| (p, Some(h))));
             if let Some(f) = r.failure {
                 if failures.len() < 5 {
                     failures.push(f);
